@@ -181,6 +181,20 @@ def run(ck, prog, tier, load):
     idn = [bb for bb, t in mc.calls(r"Encoding::identity$")]
     ok = bool(idn) and any(c[0] == "discr" and e_calls(c, r"get_header$") and lab == "None" for c, lab, a in mc.guards(idn[0]))
     ck.ob("C13-c.identity-fallback", "CompressMiddleware::call", ok, mc, idn[0] if idn else None, "without an Accept-Encoding header the response is left uncoded (identity)")
+    # what the middleware hands on as "the negotiated coding" is the negotiation's own answer (or identity when the request
+    # carries no Accept-Encoding): the server's list of supported codings is an input of the negotiation, never a source
+    n_cr = 0
+    for bb, i, s_ in mc.assigns():
+        rv = s_["rv"]
+        if rv["k"] != "agg" or not (rv.get("adt") or "").endswith("compress::CompressResponse") or "encoding" not in rv.get("fields", []):
+            continue
+        n_cr += 1
+        e = mc.op_expr(rv["ops"][rv["fields"].index("encoding")], 8)
+        top = e[1] if e[0] == "place" else e
+        from_neg = top[0] == "call" and rx(r"AcceptEncoding::negotiate$").search(top[1] or "") is not None
+        ident = bool(e_calls(e, r"Encoding::identity$")) and not e_calls(e, r"AcceptEncoding::negotiate$") and any(c[0] == "discr" and e_calls(c, r"get_header$") and lab == "None" for c, lab, a in mc.guards(bb))
+        ck.ob("C13-c.middleware-uses-negotiated-coding", "CompressMiddleware::call|#%d" % n_cr, from_neg or ident, mc, bb, "CompressResponse.encoding is the value negotiate() returned (or identity without an Accept-Encoding header): %s" % short(e, 4))
+    ck.anchor("C13-c", n_cr, 2, "CompressResponse constructions in CompressMiddleware::call")
     cr = [b for b in prog.find(r"^<actix_web::middleware::compress::CompressResponse<S, B> as core::future::future::Future>::poll")]
     er = [(b, bb, t) for b in cr for c in prog.with_closures(b) for bb, t in c.calls(r"encoder::Encoder.*::response$") for b in [c]]
     ok = bool(er) and all(any(r_[0] in ("var", "phi", "arg") for r_ in e_roots(b.op_expr(t["args"][0]))) or any(isinstance(p, str) and p.startswith(".^") for x in walk(b.op_expr(t["args"][0])) if x[0] == "place" for p in x[2]) for b, bb, t in er)
